@@ -102,6 +102,6 @@ let read_ulp ic (hdr : string list) : ulp * string list * string list =
 
 let string_of_bool b = if b then "true" else "false"
 
-let bstat_of_char c = match c with '0' -> BLower | '1' -> BBasic | '2' -> BUpper | '3' -> BFree | _ -> BOther
-let bstats_of_string s = if s = "-" then [] else List.init (String.length s) (fun i -> bstat_of_char s.[i])
+let cstats_of_string s = if s = "-" then [] else List.init (String.length s) (fun i -> col_bstat_of_code (coqz_of_z (BZ.of_int (Char.code s.[i]))))
+let rstats_of_string s = if s = "-" then [] else List.init (String.length s) (fun i -> row_bstat_of_code (coqz_of_z (BZ.of_int (Char.code s.[i]))))
 let qs_join l = String.concat " " (List.map string_of_q l)
